@@ -380,6 +380,24 @@ def r08_5(run):
                         why = 'returns a fresh Deferred that nothing fires'
             run.ob('R08.5', cl, rn.ast, '%s.close returns a Deferred tied to the closing event' % name, ok, slot='close-return:%s:%s' % (name, src(v)[:30]),
                    message='%s.close %s' % (name, why))
+        # a relay hung on the shared pending Deferred hands on what it was given: whatever it returns is what every callback
+        # added later to the pending Deferred (the first caller's, the other repeated requests') receives instead of the outcome
+        for c in calls_in(cl):
+            if callee_attr(c) in ('addBoth', 'addCallback', 'addErrback') and dotted(receiver(c)) == 'self._closing_deferred' and c.args and isinstance(c.args[0], ast.Name):
+                for ch in cl.children:
+                    if ch.name != c.args[0].id or not ch.node.args.args:
+                        continue
+                    par = ch.node.args.args[0].arg
+                    gc = cfg_of(ch)
+                    bad = gc.exit_fall in gc.live
+                    for n in gc.real_nodes():
+                        if n.kind == 'stmt' and isinstance(n.ast, ast.Return) and not (isinstance(n.ast.value, ast.Name) and n.ast.value.id == par):
+                            bad = True
+                    rebound = any(isinstance(x, ast.Name) and x.id == par and isinstance(x.ctx, ast.Store) for x in walk_unit(ch))
+                    run.ob('R08.5', ch, ch.node, 'a relay on the pending closing Deferred passes the outcome through unchanged', not bad and not rebound,
+                           slot='relay-pass-through:%s:%s' % (name, ch.name),
+                           message='%s.close: %s, added to the shared pending Deferred, does not return its argument on every path: the other waiters receive its '
+                                   'return value instead of the outcome (a failure is swallowed)' % (name, ch.name))
         # the close command is actually sent on the fresh-request path
         sends = [c for c in calls_in(cl) if callee_attr(c) == cmd]
         run.ob('R08.5', cl, cl.node, '%s.close sends the close command' % name, len(sends) == 1, slot='close-sends:%s' % name, message='%s.close sends %d close commands' % (name, len(sends)))
@@ -426,6 +444,8 @@ RULES = [
 from ..selftest import M  # noqa: E402
 FS, FT, FC = 'txtorcon/stream.py', 'txtorcon/torstate.py', 'txtorcon/circuit.py'
 MUTANTS = [
+    M('relay-swallows-outcome', 'txtorcon/stream.py', "                d.callback(arg)\n                return arg\n", "                d.callback(arg)\n                return None\n", ['R08.5']),
+    M('relay-falls-off', 'txtorcon/circuit.py', "                d.callback(arg)\n                return arg\n", "                d.callback(arg)\n", ['R08.5']),
     M('repeated-close-shares-deferred', 'txtorcon/circuit.py', "        if self._closing_deferred:\n            d = defer.Deferred()\n\n            def closed(arg):\n                d.callback(arg)\n                return arg\n            self._closing_deferred.addBoth(closed)\n            return d\n\n        # actually-close the circuit", "        if self._closing_deferred:\n            return self._closing_deferred\n\n        # actually-close the circuit", ['R08.5']),
     M('close-wait-after-fanout', 'txtorcon/circuit.py', "            flags = self._create_flags(kw)\n            self.maybe_call_closing_deferred()\n            for x in self.listeners:\n                x.circuit_failed(self, **flags)", "            flags = self._create_flags(kw)\n            for x in self.listeners:\n                x.circuit_failed(self, **flags)\n            self.maybe_call_closing_deferred()", ['R08.4']),
     M('readd-returns-early', 'txtorcon/torstate.py', "        listen = ICircuitListener(icircuitlistener)\n        for circ in self.circuits.values():", "        listen = ICircuitListener(icircuitlistener)\n        if listen in self.circuit_listeners:\n            return\n        for circ in self.circuits.values():", ['R08.3']),
